@@ -29,6 +29,20 @@ var fetchFaultModes = []string{"none", "none", "batch-503", "batch-429", "get-50
 // offerAuthorization: in half of the cases every action carries its own Authorization header, and the user
 // has credentials for the host (a credential helper); a 401 on such an action request must not make git-lfs
 // repeat the request with anything but the offered header
+// urlAliases: in a third of the cases the user's Git configuration holds url.<x>.insteadOf aliases whose
+// prefixes match the hrefs of verify and storage actions (a mirror / proxy set-up). Aliases rewrite remote
+// and API URLs; an action href is used as offered unless lfs.transfer.enablehrefrewrite is set (it is not).
+func (c *caseCtx) urlAliases(dir, repoKey string) string {
+	if c.idx%3 != 1 {
+		return "no-alias"
+	}
+	u := c.srv.URL
+	c.must(dir, "config", "url."+u+"/mirror/verify.insteadOf", u+"/r/"+repoKey+"/verify")
+	c.must(dir, "config", "url."+u+"/mirror/s/.insteadOf", u+"/s/")
+	c.must(dir, "config", "url."+u+"/mirror/push/.pushInsteadOf", u+"/s/"+repoKey+"/")
+	return "alias-matches-action-hrefs"
+}
+
 func (c *caseCtx) offerAuthorization(dir string) string {
 	if c.idx%2 == 1 {
 		return "auth-not-offered"
@@ -184,7 +198,10 @@ func (c *caseCtx) partPush(spec caseSpec, hostile bool) {
 	if mode == "verify-401" {
 		c.srv.WithVerify = true
 	}
-	authMode := c.offerAuthorization(g.Dir)
+	authMode := c.offerAuthorization(g.Dir) + "/" + c.urlAliases(g.Dir, "origin")
+	if strings.HasSuffix(authMode, "alias-matches-action-hrefs") {
+		c.srv.WithVerify = true
+	}
 	fs := &faultScript{mode: mode, c: c}
 	c.srv.SetHook(fs.hook)
 	branches := append([]string{}, g.Branches...)
